@@ -29,8 +29,11 @@ def check(ctx):
   r4(ctx)
   r5(ctx)
   r6(ctx)
-  from . import c03
+  from . import c03, c08
   c03.r2(ctx)
+  ctx.rule('C08.R4', 'shared with C08: a failed transport open shuts down with the fault signal (the resurrector fails fast and retries on it)')
+  c08.failed_open_rules(ctx)
+  balancer_close(ctx)
 
 
 def r1(ctx):
@@ -299,3 +302,22 @@ def r6(ctx):
           continue
         ctx.ob('C09.R6', f, 'result of %s is observed' % U(c), ok, 'the result of %s is consumed by: %s' % (U(c), how), why)
   ctx.floor('C09.R6', 'Open() result sites', n, 7)
+
+
+def balancer_close(ctx):
+  prog = ctx.prog
+  f = prog.func('scales/loadbalancer/heap.py', 'HeapBalancerSink.Close')
+  why = ('closing the balancer must close every member channel: a ResurrectorSink reports Closed exactly while its endpoint is down and its retry greenlet is alive, '
+         'and only its Close() kills that greenlet -- skipping "closed" members leaves resurrectors reconnecting for ever')
+  loops = [n for n in ast.walk(f.node) if isinstance(n, (ast.ListComp, ast.GeneratorExp, ast.For))]
+  ok = False
+  what = 'no loop over the members in Close'
+  for lp in loops:
+    it = lp.generators[0].iter if not isinstance(lp, ast.For) else lp.iter
+    tgt = lp.generators[0].target if not isinstance(lp, ast.For) else lp.target
+    ifs = lp.generators[0].ifs if not isinstance(lp, ast.For) else [x.test for x in lp.body if isinstance(x, ast.If)]
+    body_calls = [c for c in ast.walk(lp) if isinstance(c, ast.Call) and U(c.func) == '%s.channel.Close' % U(tgt)]
+    if U(it).replace(' ', '') in ('self._heap', 'self._heap[1:]', 'self._heap[1:self._size+1]') and body_calls:
+      ok = not ifs
+      what = 'member channels are closed under the filter %s' % [U(i) for i in ifs] if ifs else ''
+  ctx.ob('C09.R4', f, 'closing the balancer closes every member channel, whatever state it reports', ok, what, why)
